@@ -21,7 +21,7 @@ open Hunks Edits Matcher
 theorem line_before_is_line (content : Bytes) (line col start stop : Nat) (text repl l : Bytes)
     (hl : lineOf content line = some l) (hv : Utf8.valid l = true) (h : Hunk) (how : How)
     (hg : hunkGeom content line col start stop text repl = .ok h how) : h.lineBefore = l := by
-  simp only [hunkGeom, hunkGeomG, hl, Matcher.lossy_of_valid hv] at hg
+  simp only [hunkGeom, hunkGeomG, Bool.false_eq_true, if_false, hl, Matcher.lossy_of_valid hv] at hg
   split at hg
   · cases hg
   · cases hg; rfl
@@ -37,7 +37,7 @@ theorem line_after_single (content : Bytes) (line col start stop : Nat) (text re
   have hle := hpre.length_le
   simp only [List.length_drop] at hle
   have hcol : col < l.length := by omega
-  simp only [hunkGeom, hunkGeomG, if_true, hl, Matcher.lossy_of_valid hv, lineAfter, startsWithAt, hcol, if_true, hb, List.isPrefixOf_iff_prefix.mpr hpre, spliceAt]
+  simp only [hunkGeom, hunkGeomG, Bool.false_eq_true, if_false, if_true, hl, Matcher.lossy_of_valid hv, lineAfter, startsWithAt, hcol, if_true, hb, List.isPrefixOf_iff_prefix.mpr hpre, spliceAt]
   exact ⟨_, rfl, rfl, rfl, rfl, rfl, rfl⟩
 
 /-- `line_after_single` for the planner AS IT IS: `Gen.lineAfterColumnIsByte` is re-extracted from scanner.rs on every run
@@ -47,12 +47,62 @@ theorem line_after_single (content : Bytes) (line col start stop : Nat) (text re
 theorem line_after_single_current (content : Bytes) (line col start stop : Nat) (text repl l : Bytes)
     (hl : lineOf content line = some l) (hv : Utf8.valid l = true)
     (hne : text ≠ []) (hpre : text <+: l.drop col) (hb : isCharBoundary l col = true) :
-    ∃ h, hunkGeomG Gen.lineAfterColumnIsByte content line col start stop text repl = .ok h .splice ∧
+    ∃ h, hunkGeomG Gen.lineAfterColumnIsByte false content line col start stop text repl = .ok h .splice ∧
       h.lineBefore = l ∧ h.lineAfter = l.take col ++ repl ++ l.drop (col + text.length) := by
   have hflag : Gen.lineAfterColumnIsByte = true := by decide
   rw [hflag]
   obtain ⟨h, h1, h2, h3, _⟩ := line_after_single content line col start stop text repl l hl hv hne hpre hb
   exact ⟨h, h1, h2, h3⟩
+
+/-- `line_after_single` WITHOUT the valid-UTF-8 clause, for the shape of seeded/_fixes/c03_line_context_decoded_parts.diff.
+    Reading of the property on a line that cannot be decoded: the recorded context is the LOSSY RENDERING of the file's line
+    (`String::from_utf8_lossy`, one U+FFFD per maximal invalid sequence) — `line_before` renders the whole line, `line_after`
+    is (rendering of the bytes before the match) ++ replacement ++ (rendering of the bytes after the match), `char_offset`
+    counts the characters of the rendered text before the match.  For ANY bytes: the match only has to stand at its column
+    of the raw line (C03); the `find` fallback is unreachable. -/
+theorem line_after_single_decoded (colIsByte : Bool) (content : Bytes) (line col start stop : Nat) (text repl l : Bytes)
+    (hl : lineOf content line = some l) (hpre : text <+: l.drop col) (hlen : col + text.length ≤ l.length) :
+    ∃ h, hunkGeomG colIsByte true content line col start stop text repl = .ok h .splice ∧
+      h.lineBefore = Utf8.lossy l ∧
+      h.lineAfter = Utf8.lossy (l.take col) ++ repl ++ Utf8.lossy (l.drop (col + text.length)) ∧
+      h.charOffset = Utf8.charCount (Utf8.lossy (l.take col)) ∧
+      h.byteOffset = col ∧ h.content = text ∧ h.replace = repl := by
+  have hcol : col ≤ l.length := by omega
+  simp only [hunkGeomG, hl, if_true, lineAfterParts, hlen, decide_true, Bool.true_and,
+    List.isPrefixOf_iff_prefix.mpr hpre, hcol]
+  exact ⟨_, rfl, rfl, rfl, rfl, rfl, rfl, rfl⟩
+
+/-- … and for the planner AS IT IS: holds as soon as `Gen.lineAfterDecodesParts` (re-extracted from scanner.rs on every run)
+    is true; today it is false and the valid-UTF-8 clause of `line_after_single_current` is needed
+    (C03 finding invalid_utf8_line_context). -/
+theorem line_after_single_decoded_current (content : Bytes) (line col start stop : Nat) (text repl l : Bytes)
+    (hflag : Gen.lineAfterDecodesParts = true)
+    (hl : lineOf content line = some l) (hpre : text <+: l.drop col) (hlen : col + text.length ≤ l.length) :
+    ∃ h, hunkGeomG Gen.lineAfterColumnIsByte Gen.lineAfterDecodesParts content line col start stop text repl = .ok h .splice ∧
+      h.lineBefore = Utf8.lossy l ∧
+      h.lineAfter = Utf8.lossy (l.take col) ++ repl ++ Utf8.lossy (l.drop (col + text.length)) := by
+  rw [hflag]
+  obtain ⟨h, h1, h2, h3, _⟩ := line_after_single_decoded Gen.lineAfterColumnIsByte content line col start stop text repl l hl hpre hlen
+  exact ⟨h, h1, h2, h3⟩
+
+/-- on a valid-UTF-8 line both shapes record the same context (the repair changes nothing there) -/
+theorem decoded_parts_agree_on_valid (content : Bytes) (line col start stop : Nat) (text repl l : Bytes)
+    (hl : lineOf content line = some l) (hv : Utf8.valid l = true) (hvt : Utf8.valid (l.take col) = true)
+    (hvd : Utf8.valid (l.drop (col + text.length)) = true)
+    (hne : text ≠ []) (hpre : text <+: l.drop col) (hb : isCharBoundary l col = true) :
+    ∃ h h', hunkGeomG true false content line col start stop text repl = .ok h .splice ∧
+      hunkGeomG true true content line col start stop text repl = .ok h' .splice ∧
+      h.lineBefore = h'.lineBefore ∧ h.lineAfter = h'.lineAfter := by
+  have hlen : col + text.length ≤ l.length := by
+    have := hpre.length_le
+    simp only [List.length_drop] at this
+    have : 0 < text.length := List.length_pos_iff.mpr hne
+    omega
+  obtain ⟨h, h1, h2, h3, _⟩ := line_after_single content line col start stop text repl l hl hv hne hpre hb
+  obtain ⟨h', g1, g2, g3, _⟩ := line_after_single_decoded true content line col start stop text repl l hl hpre hlen
+  refine ⟨h, h', h1, g1, ?_, ?_⟩
+  · rw [h2, g2, Matcher.lossy_of_valid hv]
+  · rw [h3, g3, Matcher.lossy_of_valid hvt, Matcher.lossy_of_valid hvd]
 
 /-- the single-hunk 'after' line is the left-to-right splice of the line with that one edit -/
 theorem line_after_eq_spec (l : Bytes) (col : Nat) (text repl : Bytes) :
@@ -257,10 +307,10 @@ theorem startsWithAt_total (s : Bytes) (i : Nat) (p : Bytes) : startsWithAt s i 
     `xold_namey é brand_new_name`. -/
 theorem C15_witness_char_column :
     let c := b!"xold_namey é old_name\n"
-    hunkGeomAtG false c 14 22 b!"old_name" b!"brand_new_name" =
+    hunkGeomAtG false false c 14 22 b!"old_name" b!"brand_new_name" =
       .ok { line := 1, byteOffset := 14, charOffset := 13, start := 14, stop := 22, content := b!"old_name",
             replace := b!"brand_new_name", lineBefore := c, lineAfter := b!"xbrand_new_namey é old_name\n" } .fallback ∧
-    hunkGeomAtG true c 14 22 b!"old_name" b!"brand_new_name" =
+    hunkGeomAtG true false c 14 22 b!"old_name" b!"brand_new_name" =
       .ok { line := 1, byteOffset := 14, charOffset := 13, start := 14, stop := 22, content := b!"old_name",
             replace := b!"brand_new_name", lineBefore := c, lineAfter := b!"xold_namey é brand_new_name\n" } .splice := by decide
 
